@@ -104,6 +104,22 @@ def run(rng, tier, model_ok):
             rep = ("*", rep, q)
         extra.append((("pow", q, k), rep))
         extra.append((("pow", q, 0), ("plain", Fraction(1))))
+    # boundary magnitudes: zero, one and minus one with units under every small power and in products and quotients
+    for _ in range(25 if tier == "quick" else 300):
+        u = V.unit_expr(rng, nfactors=rng.choice([1, 1, 2]))
+        u2 = V.unit_expr(rng, nfactors=1)
+        leaves += [u, u2]
+        for x in (Fraction(0), Fraction(1), Fraction(-1)):
+            q = ("qty", x, u)
+            for k in (1, 2, 3, -1, -2):
+                rep = q
+                for _ in range(abs(k) - 1):
+                    rep = ("*", rep, q)
+                if k < 0:
+                    rep = ("/", ("plain", Fraction(1)), rep)
+                extra.append((("pow", q, k), rep))
+            extra.append((("*", q, ("qty", Fraction(0), u2)), ("*", ("qty", Fraction(0), u2), q)))
+            extra.append((("/", ("qty", Fraction(0), u2), ("qty", Fraction(7), u)), ("*", ("qty", Fraction(0), u2), ("pow", ("qty", Fraction(7), u), -1))))
     parsed = dict(zip(sorted(set(leaves)), unitlib.impl_units(sorted(set(leaves)))))
     items = []
     stats = {"skipped_unreadable_unit": 0, "expected_error": 0, "with_power": 0, "reconstructed_derived_unit": 0}
